@@ -3,7 +3,7 @@
    list of integers.  Both the extracted OCaml driver and the coqc/vm_compute
    cross-check call exactly this function.  Byte strings inside [args] are
    length-prefixed. *)
-From Cam Require Import Outcome Bytes Chunks.
+From Cam Require Import Outcome Bytes Chunks Cmd.
 
 Definition BAD_ARGS : list Z := [-99].
 
@@ -15,6 +15,16 @@ Definition d_c10 (code : Z) (args : list Z) : list Z :=
   | _, _ => BAD_ARGS
   end.
 
+Definition d_c09 (code : Z) (args : list Z) : list Z :=
+  match code, args with
+  | 901, [a; n; id; cap] => run_cmd (Ok (CRead a n)) id cap
+  | 902, [a; n; seed; id; cap] => run_cmd (mk_write a (pat_data seed n)) id cap
+  | 903, id :: cap :: rest => run_cmd (mk_read_stacked (pairs_of rest)) id cap
+  | 904, id :: cap :: rest => run_cmd (mk_write_stacked (wentries_of rest)) id cap
+  | _, _ => BAD_ARGS
+  end.
+
 Definition dispatch (code : Z) (args : list Z) : list Z :=
   if (1000 <? code) && (code <? 1100) then d_c10 code args
+  else if (900 <? code) && (code <? 1000) then d_c09 code args
   else BAD_ARGS.
